@@ -224,6 +224,12 @@ structure Post where
   allocs : List Nat
 deriving Repr, DecidableEq
 
+/-- `pm.QoS() != QosAtMostOnce && pm.PacketID() == 0` for a decoded PUBLISH ([MQTT-2.3.1-1]) -/
+def publishIdMissing (m : Codec.Msg) : Bool :=
+  match m with
+  | .publish h _ _ => Codec.pubQoS h != qosAtMostOnce && h.packetID == 0
+  | _ => false
+
 /-- one round of the processor loop up to `processIncoming`: `peekMessageSize`, `peekMessage` -/
 def nextPacket (sz : Nat) (avail : Bytes) : Post :=
   match peekMessageSize sz avail with
@@ -238,9 +244,11 @@ def nextPacket (sz : Nat) (avail : Bytes) : Post :=
     | .full => ⟨.closeThis, a⟩
     | .blocked => ⟨.needMore, a⟩
     | .ok b =>
-      -- msg, err = mtype.New(); n, err = msg.Decode(b)
+      -- msg, err = mtype.New(); n, err = msg.Decode(b); a QoS 1/2 PUBLISH without identifier is an error
       match decodeNew mtype b with
-      | .ok d => ⟨.packet d total.toNat, a ++ [total.toNat]⟩
+      | .ok d =>
+        if framingRejectsPublishIdZero && publishIdMissing d.msg then ⟨.closeThis, a ++ [total.toNat]⟩
+        else ⟨.packet d total.toNat, a ++ [total.toNat]⟩
       | .err => ⟨.closeThis, a ++ [total.toNat]⟩
       | .panic => ⟨.panicked, a ++ [total.toNat]⟩
 
